@@ -64,13 +64,15 @@ with explains_l : list node -> list node -> list entry -> Prop :=
 Section Facts.
   Variable orc_int : str -> option Z.
   Variable orc_float : str -> option (str * bool * bool).
-  Notation attempt_type := (attempt_type orc_int orc_float).
-  Notation attempt := (attempt orc_int orc_float).
-  Notation run_chain := (run_chain orc_int orc_float).
-  Notation repair_value := (repair_value orc_int orc_float).
-  Notation repair_node := (repair_node orc_int orc_float).
-  Notation repair_nodes := (repair_nodes orc_int orc_float).
-  Notation repair := (repair orc_int orc_float).
+  Variable orc_digit : N -> option N.
+  Notation attempt_type := (attempt_type orc_int orc_float orc_digit).
+  Notation attempt := (attempt orc_int orc_float orc_digit).
+  Notation run_chain := (run_chain orc_int orc_float orc_digit).
+  Notation repair_value := (repair_value orc_int orc_float orc_digit).
+  Notation repair_node := (repair_node orc_int orc_float orc_digit).
+  Notation repair_nodes := (repair_nodes orc_int orc_float orc_digit).
+  Notation repair := (repair orc_int orc_float orc_digit).
+  Notation nonzero_mantissa := (nonzero_mantissa orc_digit).
 
   (* ---------- single steps ---------- *)
   Lemma attempt_nonstr c v : is_str v = false -> attempt c v = None.
@@ -622,17 +624,17 @@ Definition wit_two_enum_schema : schema := [([75], FChain [CEnum [[88]]; CEnum [
 Definition wit_two_enum_doc : list node := [NAssign [75] (VStr [120])].
 
 Definition repair_idempotent_full : Prop :=
-  forall oi of_ s d, repair oi of_ true (Some s) (fst (repair oi of_ true (Some s) d)) = (fst (repair oi of_ true (Some s) d), []).
+  forall oi of_ od s d, repair oi of_ od true (Some s) (fst (repair oi of_ od true (Some s) d)) = (fst (repair oi of_ od true (Some s) d), []).
 Lemma repair_idempotent_log_refuted :
-  exists oi of_ s d, repair oi of_ true (Some s) (fst (repair oi of_ true (Some s) d)) <> (fst (repair oi of_ true (Some s) d), []).
+  exists oi of_ od s d, repair oi of_ od true (Some s) (fst (repair oi of_ od true (Some s) d)) <> (fst (repair oi of_ od true (Some s) d), []).
 Proof.
-  exists (fun _ => None), (fun _ => None), wit_two_enum_schema, wit_two_enum_doc. vm_compute. discriminate.
+  exists (fun _ => None), (fun _ => None), (fun _ => None), wit_two_enum_schema, wit_two_enum_doc. vm_compute. discriminate.
 Qed.
 (* ... although the document itself is stable on that witness *)
 Lemma repair_idempotent_witness_doc_stable :
-  fst (repair (fun _ => None) (fun _ => None) true (Some wit_two_enum_schema)
-         (fst (repair (fun _ => None) (fun _ => None) true (Some wit_two_enum_schema) wit_two_enum_doc)))
-  = fst (repair (fun _ => None) (fun _ => None) true (Some wit_two_enum_schema) wit_two_enum_doc).
+  fst (repair (fun _ => None) (fun _ => None) (fun _ => None) true (Some wit_two_enum_schema)
+         (fst (repair (fun _ => None) (fun _ => None) (fun _ => None) true (Some wit_two_enum_schema) wit_two_enum_doc)))
+  = fst (repair (fun _ => None) (fun _ => None) (fun _ => None) true (Some wit_two_enum_schema) wit_two_enum_doc).
 Proof. vm_compute. reflexivity. Qed.
 Example simple_schema_nonvacuous :
   simple_schema [([69], FChain [COther; CEnum [[65; 98]; [97]]; CType repair_number_type]); ([78], FChain [COther; CType repair_number_type])] = true.
@@ -641,26 +643,28 @@ Proof. vm_compute. reflexivity. Qed.
 (* no-op on VALID documents in the validator's sense (ENUM accepts a unique prefix) is false: "A" is a unique
    prefix of Ab in ENUM[Ab,a] (valid), and repair rewrites it to the other member "a" *)
 Definition repair_noop_when_prefix_valid_full : Prop :=
-  forall oi of_ k a s, enum_eval a s = true ->
-    repair oi of_ true (Some [(k, FChain [CEnum a])]) [NAssign k (VStr s)] = ([NAssign k (VStr s)], []).
+  forall oi of_ od k a s, enum_eval a s = true ->
+    repair oi of_ od true (Some [(k, FChain [CEnum a])]) [NAssign k (VStr s)] = ([NAssign k (VStr s)], []).
 Lemma repair_noop_when_prefix_valid_refuted :
-  exists oi of_ k a s, enum_eval a s = true /\
-    repair oi of_ true (Some [(k, FChain [CEnum a])]) [NAssign k (VStr s)] <> ([NAssign k (VStr s)], []).
+  exists oi of_ od k a s, enum_eval a s = true /\
+    repair oi of_ od true (Some [(k, FChain [CEnum a])]) [NAssign k (VStr s)] <> ([NAssign k (VStr s)], []).
 Proof.
-  exists (fun _ => None), (fun _ => None), [69], [[65; 98]; [97]], [65]. split; vm_compute; [reflexivity|discriminate].
+  exists (fun _ => None), (fun _ => None), (fun _ => None), [69], [[65; 98]; [97]], [65]. split; vm_compute; [reflexivity|discriminate].
 Qed.
 
-(* ---- the mantissa test in closed form (tables of RepairGen.v eliminated): a digit 1..9 before the first e/E ---- *)
-Lemma digit_memb c : memb c [49; 50; 51; 52; 53; 54; 55; 56; 57] = (49 <=? c) && (c <=? 57).
+(* ---- the mantissa test in closed form (tables of RepairGen.v eliminated) --------------------------------------- *)
+(* one character: an ASCII digit 1..9, or a non-ASCII character the digit oracle gives a non-zero decimal value *)
+Definition nonzero_decimal_char (od : N -> option N) (c : N) : bool :=
+  if c <? 128 then (49 <=? c) && (c <=? 57) else match od c with Some v => negb (v =? 0) | None => false end.
+
+Lemma mantissa_digit_test_spec od c : mantissa_digit_test od c = nonzero_decimal_char od c.
 Proof.
-  destruct (N.leb_spec 49 c) as [H1|H1], (N.leb_spec c 57) as [H2|H2]; cbn [andb].
-  - assert (c = 49 \/ c = 50 \/ c = 51 \/ c = 52 \/ c = 53 \/ c = 54 \/ c = 55 \/ c = 56 \/ c = 57) as H by lia.
-    repeat (destruct H as [->|H]; [reflexivity|]). subst; reflexivity.
-  - apply not_true_iff_false. intro H. apply existsb_exists in H as (x & Hin & He). apply N.eqb_eq in He. subst x.
-    cbn in Hin. lia.
-  - apply not_true_iff_false. intro H. apply existsb_exists in H as (x & Hin & He). apply N.eqb_eq in He. subst x.
-    cbn in Hin. lia.
-  - lia.
+  unfold mantissa_digit_test, nonzero_decimal_char, decimal_value.
+  destruct repair_mantissa_pin as (_ & _ & -> & _). cbn [N.eqb Pos.eqb].
+  destruct (N.ltb_spec c 128); [|reflexivity].
+  destruct (N.leb_spec 48 c), (N.leb_spec c 57), (N.leb_spec 49 c); cbn [andb]; try reflexivity; try lia.
+  - destruct (N.eqb_spec (c - 48) 0); [lia|reflexivity].
+  - destruct (N.eqb_spec (c - 48) 0); [reflexivity|lia].
 Qed.
 
 Lemma lower_chr_e c : (lower_chr c =? 101) = ((c =? 101) || (c =? 69)).
@@ -671,20 +675,37 @@ Proof.
     try (apply N.eqb_eq; lia); try (apply N.eqb_neq; lia).
 Qed.
 
-Lemma lower_chr_digit c : ((49 <=? lower_chr c) && (lower_chr c <=? 57)) = ((49 <=? c) && (c <=? 57)).
+(* lower-casing (ASCII A-Z -> a-z, everything else fixed) never changes whether a character passes the test *)
+Lemma lower_chr_decimal od c : nonzero_decimal_char od (lower_chr c) = nonzero_decimal_char od c.
 Proof.
   unfold lower_chr, is_upper.
   destruct (N.leb_spec 65 c), (N.leb_spec c 90); cbn [andb]; try reflexivity.
+  unfold nonzero_decimal_char.
+  destruct (N.ltb_spec (c + 32) 128), (N.ltb_spec c 128); try lia.
   destruct (N.leb_spec 49 (c + 32)), (N.leb_spec (c + 32) 57), (N.leb_spec 49 c), (N.leb_spec c 57); cbn [andb]; try reflexivity; lia.
 Qed.
 
-Theorem nonzero_mantissa_spec st :
-  nonzero_mantissa st = existsb (fun c => (49 <=? c) && (c <=? 57)) (takeb (fun c => negb ((c =? 101) || (c =? 69))) st).
-Proof.
-  unfold nonzero_mantissa, mantissa. destruct repair_mantissa_pin as (-> & -> & ->). cbn [N.eqb Pos.eqb]. unfold lower.
-  induction st as [|c r IH]; [reflexivity|]. cbn [map takeb]. rewrite lower_chr_e.
-  destruct ((c =? 101) || (c =? 69)); cbn [negb]; [reflexivity|]. cbn [existsb]. rewrite IH, digit_memb, lower_chr_digit. reflexivity.
-Qed.
+Section MantissaSpec.
+  Variable od : N -> option N.
+  (* "some character before the first e/E is a decimal digit with a non-zero value" *)
+  Theorem nonzero_mantissa_spec st :
+    nonzero_mantissa od st = existsb (nonzero_decimal_char od) (takeb (fun c => negb ((c =? 101) || (c =? 69))) st).
+  Proof.
+    unfold nonzero_mantissa, mantissa. destruct repair_mantissa_pin as (-> & -> & _). cbn [N.eqb Pos.eqb]. unfold lower.
+    induction st as [|c r IH]; [reflexivity|]. cbn [map takeb]. rewrite lower_chr_e.
+    destruct ((c =? 101) || (c =? 69)); cbn [negb]; [reflexivity|]. cbn [existsb].
+    rewrite IH, mantissa_digit_test_spec, lower_chr_decimal. reflexivity.
+  Qed.
+  (* on ASCII text the oracle is irrelevant: a digit 1..9 before the first e/E *)
+  Theorem nonzero_mantissa_ascii st : ascii_str st = true ->
+    nonzero_mantissa od st = existsb (fun c => (49 <=? c) && (c <=? 57)) (takeb (fun c => negb ((c =? 101) || (c =? 69))) st).
+  Proof.
+    intro Ha. rewrite nonzero_mantissa_spec. induction st as [|c r IH]; [reflexivity|].
+    cbn [ascii_str forallb] in Ha. apply andb_true_iff in Ha as [Hc Hr]. cbn [takeb].
+    destruct ((c =? 101) || (c =? 69)); cbn [negb]; [reflexivity|]. cbn [existsb]. rewrite (IH Hr).
+    unfold nonzero_decimal_char. unfold is_ascii in Hc. rewrite Hc. reflexivity.
+  Qed.
+End MantissaSpec.
 
 (* ---- "lossless" at the level of the LOGGED TEXTS: a non-zero literal does not become a zero text -------------------- *)
 (* a text made of 0 . - only: what str() prints for 0, 0.0, -0.0 *)
@@ -693,35 +714,36 @@ Definition zero_text (r : str) : bool := forallb (fun c => memb c [48; 46; 45]) 
 (* for an arbitrary oracle this is false only because an oracle may contradict ITSELF (repr "0.0" but flag x != 0);
    see repair_lossless_inconsistent_oracle_refuted.  Under a self-consistent oracle it holds: repair_lossless_text. *)
 Definition repair_lossless_full : Prop :=
-  forall oi of_ s d e, In e (snd (repair oi of_ true (Some s) d)) -> e_rule e = repair_rule_type ->
-    zero_text (e_after e) = true -> nonzero_mantissa (strip (e_before e)) = false.
+  forall oi of_ od s d e, In e (snd (repair oi of_ od true (Some s) d)) -> e_rule e = repair_rule_type ->
+    zero_text (e_after e) = true -> nonzero_mantissa od (strip (e_before e)) = false.
 
 Section OracleSound.
   Variable oi : str -> option Z.
   Variable of_ : str -> option (str * bool * bool).
+  Variable od : N -> option N.
   (* the two readings the float oracle gives of ONE number agree: a zero repr text is flagged == 0.
      (NOT assumed: anything about which literals float() maps to zero.) *)
   Hypothesis of_consistent : forall st r fin zero, of_ st = Some (r, fin, zero) -> zero_text r = true -> zero = true.
 
-  Theorem repair_lossless_text_float s d e : In e (snd (repair oi of_ true (Some s) d)) -> e_rule e = repair_rule_type ->
+  Theorem repair_lossless_text_float s d e : In e (snd (repair oi of_ od true (Some s) d)) -> e_rule e = repair_rule_type ->
     use_int (strip (e_before e)) = false ->
-    zero_text (e_after e) = true -> nonzero_mantissa (strip (e_before e)) = false.
+    zero_text (e_after e) = true -> nonzero_mantissa od (strip (e_before e)) = false.
   Proof.
     intros Hin Hr Hu Hz.
-    destruct (repair_lossless_log oi of_ true (Some s) s d e eq_refl Hin Hr) as (_ & [(Hu' & _)|(_ & zero & Ho & Hm)]).
+    destruct (repair_lossless_log oi of_ od true (Some s) s d e eq_refl Hin Hr) as (_ & [(Hu' & _)|(_ & zero & Ho & Hm)]).
     - congruence.
     - apply Hm. eapply of_consistent; eauto.
   Qed.
 
-  (* int(): a text with an ASCII digit 1..9 before any e/E is not read as 0 (a fact of CPython int(), checked by the
-     extracted tbl_int_zero_ok on every oracle table of every run; the int branch of repair.py has no guard) *)
-  Hypothesis oi_zero : forall st z, oi st = Some z -> zero_text (Z_to_dec z) = true -> nonzero_mantissa st = false.
+  (* int(): a text with a decimal digit of non-zero value before any e/E is not read as 0 (a fact of CPython int(),
+     checked by the extracted tbl_int_zero_ok on every oracle table of every run; the int branch of repair.py has no guard) *)
+  Hypothesis oi_zero : forall st z, oi st = Some z -> zero_text (Z_to_dec z) = true -> nonzero_mantissa od st = false.
 
-  Theorem repair_lossless_text s d e : In e (snd (repair oi of_ true (Some s) d)) -> e_rule e = repair_rule_type ->
-    zero_text (e_after e) = true -> nonzero_mantissa (strip (e_before e)) = false.
+  Theorem repair_lossless_text s d e : In e (snd (repair oi of_ od true (Some s) d)) -> e_rule e = repair_rule_type ->
+    zero_text (e_after e) = true -> nonzero_mantissa od (strip (e_before e)) = false.
   Proof.
     intros Hin Hr Hz.
-    destruct (repair_lossless_log oi of_ true (Some s) s d e eq_refl Hin Hr) as (_ & [(_ & z & Ho & Ea & _)|(_ & zero & Ho & Hm)]).
+    destruct (repair_lossless_log oi of_ od true (Some s) s d e eq_refl Hin Hr) as (_ & [(_ & z & Ho & Ea & _)|(_ & zero & Ho & Hm)]).
     - rewrite Ea in Hz. eapply oi_zero; eauto.
     - apply Hm. eapply of_consistent; eauto.
   Qed.
@@ -730,9 +752,9 @@ End OracleSound.
 (* the hypotheses as a computable check of an oracle TABLE (run by the extracted driver on the real tables) *)
 Definition tbl_float_consistent (t : orc_tbl) : bool :=
   forallb (fun kr => match snd (snd kr) with Some (r, _, zero) => implb (zero_text r) zero | None => true end) t.
-Definition tbl_int_zero_ok (t : orc_tbl) : bool :=
+Definition tbl_int_zero_ok (t : orc_tbl) (dt : dig_tbl) : bool :=
   forallb (fun kr => match fst (snd kr) with
-                     | Some z => implb (zero_text (Z_to_dec z)) (negb (nonzero_mantissa (fst kr)))
+                     | Some z => implb (zero_text (Z_to_dec z)) (negb (nonzero_mantissa (dig_find dt) (fst kr)))
                      | None => true end) t.
 
 Lemma tbl_find_In t s x : tbl_find t s = Some x -> In (s, x) t.
@@ -750,19 +772,20 @@ Proof.
   cbn [fst snd] in Hc. rewrite Hf in Hc. rewrite Hz in Hc. destruct zero; [reflexivity|discriminate].
 Qed.
 
-Lemma tbl_int_zero_ok_sound t : tbl_int_zero_ok t = true ->
-  forall st z, tbl_int t st = Some z -> zero_text (Z_to_dec z) = true -> nonzero_mantissa st = false.
+Lemma tbl_int_zero_ok_sound t dt : tbl_int_zero_ok t dt = true ->
+  forall st z, tbl_int t st = Some z -> zero_text (Z_to_dec z) = true -> nonzero_mantissa (dig_find dt) st = false.
 Proof.
   intros Hc st z Hi Hz. unfold tbl_int in Hi. destruct (tbl_find t st) as [[i f]|] eqn:E; [|discriminate].
   apply tbl_find_In in E. unfold tbl_int_zero_ok in Hc. rewrite forallb_forall in Hc. specialize (Hc _ E).
-  cbn [fst snd] in Hc. rewrite Hi in Hc. rewrite Hz in Hc. cbn [implb] in Hc. destruct (nonzero_mantissa st); [discriminate|reflexivity].
+  cbn [fst snd] in Hc. rewrite Hi in Hc. rewrite Hz in Hc. cbn [implb] in Hc.
+  destruct (nonzero_mantissa (dig_find dt) st); [discriminate|reflexivity].
 Qed.
 
-(* for the table oracle the driver runs: if the table passes the two computable checks, no TYPE_COERCION entry of any
+(* for the table oracles the driver runs: if the tables pass the two computable checks, no TYPE_COERCION entry of any
    document under any schema turns a literal with a non-zero mantissa into a zero text *)
-Theorem repair_tbl_lossless_text t : tbl_float_consistent t = true -> tbl_int_zero_ok t = true ->
-  forall s d e, In e (snd (repair_tbl t true (Some s) d)) -> e_rule e = repair_rule_type ->
-    zero_text (e_after e) = true -> nonzero_mantissa (strip (e_before e)) = false.
+Theorem repair_tbl_lossless_text t dt : tbl_float_consistent t = true -> tbl_int_zero_ok t dt = true ->
+  forall s d e, In e (snd (repair_tbl t dt true (Some s) d)) -> e_rule e = repair_rule_type ->
+    zero_text (e_after e) = true -> nonzero_mantissa (dig_find dt) (strip (e_before e)) = false.
 Proof.
   intros Hf Hi s d e. unfold repair_tbl. apply repair_lossless_text.
   - apply tbl_float_consistent_sound; exact Hf.
@@ -776,36 +799,63 @@ Definition wit_underflow_neg_text : str := [45; 49; 101; 45; 52; 48; 48].       
 Definition wit_underflow_upper_text : str := [32; 50; 46; 48; 69; 45; 51; 50; 52].  (* " 2.0E-324" *)
 Definition wit_zero_exp_text : str := [48; 101; 53].                               (* 0e5 *)
 Definition wit_zero_neg_text : str := [45; 48; 46; 48; 101; 45; 57; 57; 57].       (* -0.0e-999 *)
+Definition wit_fullwidth_one_text : str := [65297; 101; 45; 52; 48; 48].           (* U+FF11 e-400 : FULLWIDTH DIGIT ONE *)
+Definition wit_arabic_four_text : str := [48; 46; 48; 1636; 69; 45; 52; 48; 48].   (* 0.0 U+0664 E-400 : ARABIC-INDIC FOUR *)
+Definition wit_fullwidth_zero_text : str := [65296; 101; 53].                      (* U+FF10 e5 : FULLWIDTH DIGIT ZERO *)
 Definition txt_0_0 : str := [48; 46; 48].                                          (* 0.0 *)
 Definition txt_m0_0 : str := [45; 48; 46; 48].                                     (* -0.0 *)
-(* the real float(): all five read as +-0.0 (finite, == 0) *)
+(* the real float(): all eight read as +-0.0 (finite, == 0) *)
 Definition wit_tbl : orc_tbl :=
   [(wit_underflow_text, (None, Some (txt_0_0, true, true)));
    (wit_underflow_neg_text, (None, Some (txt_m0_0, true, true)));
    ([50; 46; 48; 69; 45; 51; 50; 52], (None, Some (txt_0_0, true, true)));
    (wit_zero_exp_text, (None, Some (txt_0_0, true, true)));
    (wit_zero_neg_text, (None, Some (txt_m0_0, true, true)));
+   (wit_fullwidth_one_text, (None, Some (txt_0_0, true, true)));
+   (wit_arabic_four_text, (None, Some (txt_0_0, true, true)));
+   (wit_fullwidth_zero_text, (None, Some (txt_0_0, true, true)));
    ([49; 46; 53], (None, Some ([49; 46; 53], true, false)));
    ([52; 50], (Some 42%Z, Some ([52; 50; 46; 48], true, false)));
+   ([65297; 65298], (Some 12%Z, Some ([49; 50; 46; 48], true, false)));
+   ([65296; 65296], (Some 0%Z, Some (txt_0_0, true, true)));
    ([45; 48], (Some 0%Z, Some (txt_m0_0, true, true)))].
+(* the real str.isdecimal()/int() on the non-ASCII characters above *)
+Definition wit_dig : dig_tbl := [(65297, 1); (65298, 2); (1636, 4); (65296, 0)].
 
 (* REGRESSION (80b6126; before the fix the first three were coerced to 0.0 / -0.0 and logged as REPAIR): underflowing
    literals are left unrepaired with an EMPTY log; zero literals in any notation are still coerced *)
 Example repair_underflow_regression :
-  repair_tbl wit_tbl true (Some wit_number_schema) [NAssign [78] (VStr wit_underflow_text)]
+  repair_tbl wit_tbl wit_dig true (Some wit_number_schema) [NAssign [78] (VStr wit_underflow_text)]
     = ([NAssign [78] (VStr wit_underflow_text)], [])
-  /\ repair_tbl wit_tbl true (Some wit_number_schema) [NAssign [78] (VStr wit_underflow_neg_text)]
+  /\ repair_tbl wit_tbl wit_dig true (Some wit_number_schema) [NAssign [78] (VStr wit_underflow_neg_text)]
     = ([NAssign [78] (VStr wit_underflow_neg_text)], [])
-  /\ repair_tbl wit_tbl true (Some wit_number_schema) [NBlock [66] None [NAssign [78] (VStr wit_underflow_upper_text)]]
+  /\ repair_tbl wit_tbl wit_dig true (Some wit_number_schema) [NBlock [66] None [NAssign [78] (VStr wit_underflow_upper_text)]]
     = ([NBlock [66] None [NAssign [78] (VStr wit_underflow_upper_text)]], [])
-  /\ repair_tbl wit_tbl true (Some wit_number_schema) [NAssign [78] (VStr wit_zero_exp_text)]
+  /\ repair_tbl wit_tbl wit_dig true (Some wit_number_schema) [NAssign [78] (VStr wit_zero_exp_text)]
     = ([NAssign [78] (VFloat txt_0_0)], [mk_entry repair_rule_type wit_zero_exp_text txt_0_0 repair_tier_type])
-  /\ repair_tbl wit_tbl true (Some wit_number_schema) [NAssign [78] (VStr wit_zero_neg_text)]
+  /\ repair_tbl wit_tbl wit_dig true (Some wit_number_schema) [NAssign [78] (VStr wit_zero_neg_text)]
     = ([NAssign [78] (VFloat txt_m0_0)], [mk_entry repair_rule_type wit_zero_neg_text txt_m0_0 repair_tier_type]).
 Proof. vm_compute. repeat split; reflexivity. Qed.
 
-(* the hypotheses of repair_lossless_text are satisfiable by a non-trivial oracle (the table above) *)
-Example oracle_hypotheses_nonvacuous : tbl_float_consistent wit_tbl = true /\ tbl_int_zero_ok wit_tbl = true.
+(* REGRESSION (0b7941a; before it the first two were coerced to 0.0 because the guard looked for ASCII 1..9 only): a
+   mantissa whose only non-zero digit is a NON-ASCII decimal digit (digit oracle: value 1 / 4) is left unrepaired with an
+   EMPTY log; a fullwidth ZERO mantissa (digit oracle: value 0) is still coerced and logged *)
+Example repair_underflow_nonascii_regression :
+  repair_tbl wit_tbl wit_dig true (Some wit_number_schema) [NAssign [78] (VStr wit_fullwidth_one_text)]
+    = ([NAssign [78] (VStr wit_fullwidth_one_text)], [])
+  /\ repair_tbl wit_tbl wit_dig true (Some wit_number_schema) [NSection [49] [83] None [NAssign [78] (VStr wit_arabic_four_text)]]
+    = ([NSection [49] [83] None [NAssign [78] (VStr wit_arabic_four_text)]], [])
+  /\ repair_tbl wit_tbl wit_dig true (Some wit_number_schema) [NAssign [78] (VStr wit_fullwidth_zero_text)]
+    = ([NAssign [78] (VFloat txt_0_0)], [mk_entry repair_rule_type wit_fullwidth_zero_text txt_0_0 repair_tier_type]).
+Proof. vm_compute. repeat split; reflexivity. Qed.
+(* it is the digit oracle that decides: were U+FF11 not a decimal digit, the same text would be coerced *)
+Example repair_nonascii_not_decimal_coerced :
+  repair_tbl wit_tbl [] true (Some wit_number_schema) [NAssign [78] (VStr wit_fullwidth_one_text)]
+    = ([NAssign [78] (VFloat txt_0_0)], [mk_entry repair_rule_type wit_fullwidth_one_text txt_0_0 repair_tier_type]).
+Proof. vm_compute. reflexivity. Qed.
+
+(* the hypotheses of repair_lossless_text are satisfiable by non-trivial oracles (the tables above) *)
+Example oracle_hypotheses_nonvacuous : tbl_float_consistent wit_tbl = true /\ tbl_int_zero_ok wit_tbl wit_dig = true.
 Proof. vm_compute. split; reflexivity. Qed.
 
 (* an oracle that contradicts itself (repr "0.0", flag "!= 0") falsifies the unconditional text-level statement: the
@@ -813,10 +863,10 @@ Proof. vm_compute. split; reflexivity. Qed.
 Definition wit_inconsistent_orc (s : str) : option (str * bool * bool) :=
   if str_eqb s wit_underflow_text then Some (txt_0_0, true, false) else None.
 Lemma repair_lossless_inconsistent_oracle_refuted :
-  exists oi of_ s d e, In e (snd (repair oi of_ true (Some s) d)) /\ e_rule e = repair_rule_type /\
-    zero_text (e_after e) = true /\ nonzero_mantissa (strip (e_before e)) = true.
+  exists oi of_ od s d e, In e (snd (repair oi of_ od true (Some s) d)) /\ e_rule e = repair_rule_type /\
+    zero_text (e_after e) = true /\ nonzero_mantissa od (strip (e_before e)) = true.
 Proof.
-  exists (fun _ => None), wit_inconsistent_orc, wit_number_schema, [NAssign [78] (VStr wit_underflow_text)],
+  exists (fun _ => None), wit_inconsistent_orc, (fun _ => None), wit_number_schema, [NAssign [78] (VStr wit_underflow_text)],
     (mk_entry repair_rule_type wit_underflow_text txt_0_0 repair_tier_type).
   vm_compute. repeat split; auto.
 Qed.
